@@ -156,6 +156,7 @@ type FuncContract struct {
 	Props     []string
 	Mayalloc  bool
 	Pure      bool
+	Cases     []*Clause // proof by cases: the function is verified once per truth assignment
 }
 
 // Key is the name used to bind the contract to an ssa function: Name, (T).Name or (*T).Name.
